@@ -321,6 +321,7 @@ type acc struct {
 	class string
 	addr  ast.Expr
 	write bool
+	raw   bool // addr is already an address-valued expression
 }
 
 func namedOf(t types.Type) string {
@@ -367,12 +368,25 @@ func collect(n ast.Node, info *types.Info, lits []*ast.FuncLit, writes map[ast.E
 				if t != nil {
 					switch t.Underlying().(type) {
 					case *types.Slice:
-						*out = append(*out, acc{cls + "[]", e, writes[e]})
+						*out = append(*out, acc{class: cls + "[]", addr: e, write: writes[e]})
 					case *types.Map:
 						if writes[e] {
-							*out = append(*out, acc{cls, e.X, true})
+							*out = append(*out, acc{class: cls, addr: e.X, write: true})
 						}
 					}
+				}
+			}
+		case *ast.CallExpr:
+			// append(x.f, ...) on a slice held in a shared field writes the first spare
+			// element of the shared backing array when there is spare capacity
+			if fi, ok := e.Fun.(*ast.Ident); ok && fi.Name == "append" && len(e.Args) > 0 {
+				if cls, ok := sharedSelector(e.Args[0], info); ok {
+					x := e.Args[0]
+					spare := &ast.UnaryExpr{Op: token.AND, X: &ast.IndexExpr{
+						X:     &ast.SliceExpr{X: x, High: &ast.CallExpr{Fun: id("cap"), Args: []ast.Expr{x}}},
+						Index: &ast.CallExpr{Fun: id("len"), Args: []ast.Expr{x}},
+					}}
+					*out = append(*out, acc{class: cls + "[spare]", addr: spare, write: true, raw: true})
 				}
 			}
 		case *ast.StarExpr:
@@ -387,7 +401,7 @@ func collect(n ast.Node, info *types.Info, lits []*ast.FuncLit, writes map[ast.E
 								if fld.Embedded() {
 									continue
 								}
-								*out = append(*out, acc{tn + "." + fld.Name(), &ast.SelectorExpr{X: e.X, Sel: ast.NewIdent(fld.Name())}, writes[e]})
+								*out = append(*out, acc{class: tn + "." + fld.Name(), addr: &ast.SelectorExpr{X: e.X, Sel: ast.NewIdent(fld.Name())}, write: writes[e]})
 							}
 						}
 					}
@@ -395,7 +409,7 @@ func collect(n ast.Node, info *types.Info, lits []*ast.FuncLit, writes map[ast.E
 			}
 		case *ast.SelectorExpr:
 			if cls, ok := sharedSelector(e, info); ok {
-				*out = append(*out, acc{cls, e, writes[e]})
+				*out = append(*out, acc{class: cls, addr: e, write: writes[e]})
 			}
 		case *ast.Ident:
 			obj := info.Uses[e]
@@ -404,13 +418,13 @@ func collect(n ast.Node, info *types.Info, lits []*ast.FuncLit, writes map[ast.E
 				return true
 			}
 			if v.Parent() == v.Pkg().Scope() {
-				*out = append(*out, acc{"global." + v.Name(), e, writes[e]})
+				*out = append(*out, acc{class: "global." + v.Name(), addr: e, write: writes[e]})
 				return true
 			}
 			if len(lits) > 0 {
 				lit := lits[len(lits)-1]
 				if v.Pos() < lit.Pos() || v.Pos() > lit.End() {
-					*out = append(*out, acc{"captured." + v.Name(), e, writes[e]})
+					*out = append(*out, acc{class: "captured." + v.Name(), addr: e, write: writes[e]})
 				}
 			}
 		}
@@ -482,7 +496,9 @@ func insertAccess(fd *ast.FuncDecl, fname string, info *types.Info, fset *token.
 				ord++
 				sites = append(sites, siteInfo{site, fset.Position(st.Pos()).String(), "access:" + a.class})
 				var body ast.Expr = id("nil")
-				if addressable(a.addr, info) {
+				if a.raw {
+					body = a.addr
+				} else if addressable(a.addr, info) {
 					body = &ast.UnaryExpr{Op: token.AND, X: a.addr}
 				}
 				thunk := &ast.FuncLit{
